@@ -102,6 +102,13 @@ def install():
 
 
 # -------------------------------------------------------------------- judges
+def _split(path, seed):
+    """Half of the files are addressed through a relative recording path + audio_dir."""
+    if seed % 2:
+        return os.path.basename(path), os.path.dirname(path)
+    return path, None
+
+
 def _recording(path, file_sr, te, channels, n_frames):
     from soundevent import data
 
@@ -114,13 +121,14 @@ def judge_clip(ctx, file_sr, te, channels, n_frames, seed, start, end):
     from soundevent.audio import io as AIO
 
     path, written = make_file(file_sr, channels, n_frames, seed)
+    path, adir = _split(path, seed)
     rec = _recording(path, file_sr, te, channels, n_frames)
     sr = rec.samplerate
     spec = {"kind": "clip", "file_sr": file_sr, "te": te, "channels": channels, "n_frames": n_frames, "seed": seed, "start": start, "end": end}
     clip = data.Clip(uuid=uuid.UUID(int=43), recording=rec, start_time=start, end_time=end)
     ctx.mon("load_clip")
     try:
-        wav = AIO.load_clip(clip)
+        wav = AIO.load_clip(clip, audio_dir=adir)
     except Exception as e:
         key = f"load_clip:raises:{type(e).__name__}"
         if isinstance(e, IndexError) and F(end) - F(start) < F(1, sr):
@@ -176,11 +184,12 @@ def judge_recording(ctx, file_sr, te, channels, n_frames, seed):
     from soundevent.audio import io as AIO
 
     path, written = make_file(file_sr, channels, n_frames, seed)
+    path, adir = _split(path, seed)
     rec = _recording(path, file_sr, te, channels, n_frames)
     spec = {"kind": "recording", "file_sr": file_sr, "te": te, "channels": channels, "n_frames": n_frames, "seed": seed}
     ctx.mon("load_recording")
     try:
-        wav = AIO.load_recording(rec)
+        wav = AIO.load_recording(rec, audio_dir=adir)
     except Exception as e:
         ctx.violate_exc("load_recording:raises", f"load_recording:raises:{type(e).__name__}", e, spec=spec)
         return None
